@@ -269,6 +269,30 @@ def check_lengths(res, tier):
                 res.violation("payload-text", case, f"IR text of {L} bytes came out as {text[:30] if text else None!r}..")
             for p in probs:
                 res.violation("payload-length-field" if "length" in p else "payload-prefix", case, f"IR text of {L} bytes ({which}): {p}")
+    # the stored text is sent as it is stored: white space, separators and non-hex characters at either end or inside
+    odd = [" p", "p ", "\tp\t", "\np", "p\r\n", "  ", " ", "|", "p|q", "P.x ", "p\x00", "\x7fp", "0x1F", "ABCDEF", "abcdef", "%s", "{}", "\\n", "'p'", "p\x0b", "\x0cp"]
+    for para in odd:
+        for hexcode in odd[:12] + ["h"]:
+            waves = [{"Key": "ad", "Para": "p", "HexCode": "h"}]
+            for key in ("off", "FUN_d1", "aa"):
+                waves.append({"Key": key, "Para": para, "HexCode": hexcode})
+            case = {"kind": "verbatim", "para": para, "hexcode": hexcode}
+            try:
+                rem = SwitcherBreezeRemote({"IRSetID": "ELEC7022", "OnOffType": 0, "IRWaveList": waves})
+                cmds = {"main-off": rem.build_command(d.DeviceState.OFF, d.ThermostatMode.DRY, 20, d.ThermostatFanLevel.LOW, d.ThermostatSwing.OFF),
+                        "swing": rem.build_swing_command(d.ThermostatSwing.ON),
+                        "main-on": rem.build_command(d.DeviceState.ON, d.ThermostatMode.AUTO, 20, d.ThermostatFanLevel.LOW, d.ThermostatSwing.OFF)}
+            except Exception as exc:  # noqa: BLE001
+                res.violation("verbatim-text-raises", case, f"IR entry Para={para!r} HexCode={hexcode!r}: {exc!r}")
+                continue
+            want = para + "|" + hexcode
+            for which, cmd in cmds.items():
+                res.case(("verbatim", para, hexcode, which))
+                text, probs = decode_payload(cmd)
+                if text != want:
+                    res.violation("payload-text-not-verbatim", dict(case, which=which), f"IR entry Para={para!r} HexCode={hexcode!r} ({which}): payload carries {text[:40] if text is not None else None!r}, the stored text is {want[:40]!r}", want, text)
+                for pr in probs:
+                    res.violation("payload-length-field" if "length" in pr else "payload-prefix", dict(case, which=which), f"IR entry Para={para!r} HexCode={hexcode!r} ({which}): {pr}")
     res.sample({"kind": "length", "L": 300, "expected_length_field": struct.pack("<H", 304).hex()})
 
 
@@ -347,6 +371,9 @@ def replay(case):
     if case["kind"] == "length":
         check_lengths(res, "quick")
         res.violations = [v for v in res.violations if v["case"].get("L") == case["L"] and v["case"].get("which") == case["which"]]
+    elif case["kind"] == "verbatim":
+        check_lengths(res, "quick")
+        res.violations = [v for v in res.violations if all(v["case"].get(k) == case.get(k) for k in ("kind", "para", "hexcode", "which"))]
     elif case["kind"] == "manager":
         check_manager(res)
     else:
